@@ -59,6 +59,60 @@ func runC16(c *an.Ctx) {
 func energyValueRule(c *an.Ctx, fn *ssa.Function) {
 	p := c.P
 	fi := p.Info(fn)
+	// every row of the file is visited: the row loop is left only when the csv reader reports an error (io.EOF included)
+	for _, b := range fn.Blocks {
+		for _, in := range b.Instrs {
+			call, ok := in.(*ssa.Call)
+			if !ok || an.CalleeName(&call.Call) != "(*encoding/csv.Reader).Read" {
+				continue
+			}
+			l := innermostLoopOf(fn, call.Block())
+			if l == nil {
+				c.Undecided("PRED", fn, call.Pos(), an.KeyOf(fn, "row-loop"), "the csv Read call is not inside a loop", "shape not recognised")
+				continue
+			}
+			rerr := fi.FieldlessExtract(call, 1)
+			okEx, where, nEx := true, "", 0
+			for _, u := range fn.Blocks {
+				if !l.body[u] {
+					continue
+				}
+				for _, v := range u.Succs {
+					if l.body[v] {
+						continue
+					}
+					nEx++
+					fs := an.FactSet{}
+					for k, f := range fi.FactsAtBlock(u) {
+						fs[k] = f
+					}
+					for _, f := range fi.EdgeFacts(u, v) {
+						fs[f.Key()] = f
+					}
+					isErr := fs.Has(an.NormBin("!=", rerr, an.ConstTerm("nil")).Key())
+					for _, f := range fs {
+						// err == io.EOF (a non-nil sentinel)
+						if !f.Neg && f.T.K == an.KBin && f.T.S == "==" {
+							for k := 0; k < 2; k++ {
+								if f.T.A[k].Key() == rerr.Key() && strings.Contains(f.T.A[1-k].Key(), "io.EOF") {
+									isErr = true
+								}
+							}
+						}
+					}
+					if !isErr {
+						okEx = false
+						for _, i2 := range u.Instrs {
+							if i2.Pos().IsValid() {
+								where = p.Pos(i2.Pos())
+							}
+						}
+					}
+				}
+			}
+			c.Check(okEx && nEx > 0, "PRED", fn, call.Pos(), an.KeyOf(fn, "all-rows"), "the row loop is left only when the csv reader returns an error (end of file included): a bad row is skipped, never ends the scan", "exit near "+where)
+		}
+	}
 	// find the phi that feeds the Energy field of the appended record
 	var energyPhi *ssa.Phi
 	var tsVal ssa.Value
